@@ -416,10 +416,16 @@ impl VirtualSystem {
                 if flags.contains(OpenFlag::Exclusive) {
                     return Err(Errno::EEXIST);
                 }
-                if flags.contains(OpenFlag::Directory)
-                    && !matches!(inode.borrow().body, FileBody::Directory { .. })
-                {
+                let is_directory = matches!(inode.borrow().body, FileBody::Directory { .. });
+                if flags.contains(OpenFlag::Directory) && !is_directory {
                     return Err(Errno::ENOTDIR);
+                }
+                if is_directory
+                    && (matches!(access, OfdAccess::WriteOnly | OfdAccess::ReadWrite)
+                        || flags.contains(OpenFlag::Create)
+                        || flags.contains(OpenFlag::Truncate))
+                {
+                    return Err(Errno::EISDIR);
                 }
                 if flags.contains(OpenFlag::Truncate)
                     && let FileBody::Regular { content, .. } = &mut inode.borrow_mut().body
